@@ -100,16 +100,15 @@ func Harness_C11_transport_pairs() {
 	}
 }
 
-// chains of three transports (thorough tier)
+// chains of three transports (thorough tier): the outer two range over 10 core transports, the middle one over all
 func Harness_C11_transport_triples_T() {
-	n := ptNumTransports
-	t1 := verifPick("t1", 0, n-1)
-	t2 := verifPick("t2", 0, n-1)
-	t3 := verifPick("t3", 0, n-1)
+	core := []int{ptCell, ptFieldG, ptSliceElem, ptMap, ptIface, ptCallFuncValue, ptCallInvoke, ptPhi, ptGlobal, ptClosureCell}
+	t1 := core[verifPick("t1", 0, len(core)-1)]
+	t2 := verifPick("t2", 0, ptNumTransports-1)
+	t3 := core[verifPick("t3", 0, len(core)-1)]
 	split := verifPick("split", 2, 3)
 	w := verifBuildPtrChain([]int{t1, t2, t3}, []int{0, 1, 0}, 1, split)
 	if res := c11Run(w); res != nil {
 		c11Check(w, res, 1)
 	}
 }
-
